@@ -198,8 +198,7 @@ impl Request {
             if line == "\r\n" {
                 break;
             } else {
-                safe_assert(line.len() >= 2)?;
-                let line_without_crlf = &line[0..line.len() - 2];
+                let line_without_crlf = line.strip_suffix("\r\n").to_error(RequestError::Request)?;
                 let mut line_parts = line_without_crlf.splitn(2, ':');
                 headers.add(
                     HeaderType::from(line_parts.next().to_error(RequestError::Request)?),
@@ -297,8 +296,7 @@ impl Request {
             if line == "\r\n" {
                 break;
             } else {
-                safe_assert(line.len() >= 2)?;
-                let line_without_crlf = &line[0..line.len() - 2];
+                let line_without_crlf = line.strip_suffix("\r\n").to_error(RequestError::Request)?;
                 let mut line_parts = line_without_crlf.splitn(2, ':');
                 headers.add(
                     HeaderType::from(line_parts.next().to_error(RequestError::Request)?),
